@@ -7,7 +7,10 @@
      C03-M2  the AES-NI bulk path and the portable loop produce the same bytes and the same
          observable state, so a stream may switch between them call by call. *)
 From Coq Require Import NArith ZArith List Arith Bool Lia ZifyNat ZifyN.
-From LCP Require Import Base.CheckedMem Crypto.AesSpec Accel.AesNi Crypto.AesCtrModel.
+From LCP Require Import Base.CheckedMem.
+From LCP Require Import Crypto.AesSpec.
+From LCP Require Import Accel.AesNi.
+From LCP Require Import Crypto.AesCtrModel.
 Import ListNotations.
 Local Open Scope N_scope.
 
